@@ -25,6 +25,7 @@ type SolverStats struct {
 	Restarts int
 	MaxQuery float64
 	Slow     int // queries that needed the non-incremental tactic
+	Hung     int // fast incremental attempts whose process hung or died (decided by a fresh process instead)
 }
 
 type Solver struct {
@@ -253,8 +254,23 @@ func (s *Solver) Check(pc []*Term, extra []*Term, wantModel bool) (string, map[*
 	return "unknown", nil
 }
 
+// guard arms a timer that kills the solver process if the surrounding
+// operation (sending the query included) has not finished ms milliseconds
+// from now: a z3 that ignores its timeout, or stops reading its input, must
+// not be able to block a worker.
+func (s *Solver) guard(ms int) *time.Timer {
+	cmd := s.cmd
+	return time.AfterFunc(time.Duration(ms)*time.Millisecond, func() {
+		if cmd != nil && cmd.Process != nil {
+			cmd.Process.Kill()
+		}
+	})
+}
+
 func (s *Solver) check1(pc []*Term, extra []*Term, wantModel bool) (string, map[*Term]uint64, bool) {
 	t0 := time.Now()
+	g := s.guard(s.fastMs + 30000)
+	defer g.Stop()
 	s.sinceStart++
 	s.sync(pc)
 	for _, e := range extra {
@@ -276,10 +292,13 @@ func (s *Solver) check1(pc []*Term, extra []*Term, wantModel bool) (string, map[
 	{
 		lines, ok := s.roundtrip("(check-sat)")
 		if !ok {
-			s.Stats.Errors++
-			s.lastErr = "solver died or watchdog expired"
-			s.Stats.Seconds += time.Since(t0).Seconds()
-			return "unknown", nil, true
+			// The incremental process did not honour its (short) timeout or
+			// died. Nothing is concluded from it: the process is discarded and
+			// the query is decided by a fresh one-shot process below.
+			s.Stats.Hung++
+			s.dirty = true
+			lines = nil
+			hasExtra = false // no pop on a process that is going away
 		}
 		for _, l := range lines {
 			l = strings.TrimSpace(l)
@@ -413,6 +432,8 @@ func (s *Solver) oneShot(pc, extra []*Term, raw string, rawTerms []*Term, wantMo
 	o := &Solver{bin: s.bin, timeoutMs: s.timeoutMs, fastMs: s.timeoutMs, restartEvery: 1 << 30, log: s.log}
 	o.start()
 	defer o.Close()
+	og := o.guard(o.timeoutMs + 20000)
+	defer og.Stop()
 	for _, t := range pc {
 		o.define(t)
 		o.send("(assert " + smtName(t) + ")")
